@@ -547,6 +547,26 @@ def oracle(ctx):
                         f"{[x[3][:90] for x in ds['j1']['rejected']]}, -j4 with both requests arriving while the "
                         f"workers are detached (their creator was deferred and is running again) ends "
                         f"{ds['j4-detached']['cls']}", witness=dict(ds, kind="detached-issuer-scenario"))
+    # ---- a worker that amends an output of a re-executed sub-plan while that output is detached
+    di = b3.run_detached_input_scenario()
+    ctx.case(("scenario", "detached_input"), nontrivial=di["j2-worker-first"]["runs_of_worker"] >= 2)
+    ctx.count(f"scenario:detached_input:j1={di['j1']['cls']}:worker-first={di['j2-worker-first']['cls']}"
+              f"(runs={di['j2-worker-first']['runs_of_worker']}):sub-first={di['j2-sub-first']['cls']}")
+    for name in ("j2-worker-first", "j2-sub-first"):
+        what = ("rc-class" if di[name]["cls"] != di["j1"]["cls"] else
+                "graph" if di["j1"]["cls"] == "ok" and di[name]["graph"] != di["j1"]["graph"] else None)
+        if di["j1"]["first"] != "ok":
+            what = "setup"
+        if what:
+            ctx.add_failure("oracle", "scenario:detached_input", f"C02:scenario:detached-input:{name}:{what}",
+                            f"second build, ./sub.py re-executed (its unchanged producer w is recycled) while ./use.py "
+                            f"amends w.out: -j1 ends {di['j1']['cls']}, {name} ends {di[name]['cls']} "
+                            f"({di[name]['runs_of_worker']} runs of the worker)",
+                            witness={"kind": "detached-input-scenario", "schedule": name,
+                                     **{k: di[k] for k in ("project", "edit")},
+                                     "j1": {k: v for k, v in di["j1"].items() if k != "graph"},
+                                     name: {k: v for k, v in di[name].items() if k != "graph"}})
+            break
     # ---- error text of a volatile output versus an input, at system level
     r = b3.run_text_scenario()
     ctx.case(("scenario", "volatile_vs_input_text"), nontrivial=True)
@@ -714,6 +734,14 @@ def replay(ctx, obj):
         r = b3.run_case(tuple(w["item"]))
         for kind, sched, detail in r.get("diffs", []):
             ctx.add_failure("oracle", "e3-schedules", _e3_signature(r, kind, sched), f"{sched}: {kind}", witness=w)
+        return
+    if w.get("kind") == "detached-input-scenario":
+        di = b3.run_detached_input_scenario()
+        name = w["schedule"]
+        if di[name]["cls"] != di["j1"]["cls"] or (di["j1"]["cls"] == "ok" and di[name]["graph"] != di["j1"]["graph"]):
+            ctx.add_failure("oracle", "scenario:detached_input", f"C02:scenario:detached-input:{name}:"
+                            + ("rc-class" if di[name]["cls"] != di["j1"]["cls"] else "graph"),
+                            f"-j1 ends {di['j1']['cls']}, {name} ends {di[name]['cls']}", witness=w)
         return
     if w.get("kind") == "detached-issuer-scenario":
         ds = b3.run_detached_issuer_scenario()
